@@ -44,8 +44,11 @@ def instance(seed):
             qm = m
         elif rm == "lt":
             qm = m * rng.uniform(0.55, 0.9)
-            if rng.random() < 0.4:      # far below: the reference lies beyond other quarks' thresholds
-                qm = max(1.05, m * math.exp(-rng.uniform(math.log(2.0), math.log(400.0 if q == 3 else 100.0))))  # the top may be quoted below the charm
+            # far below (the reference lies beyond other quarks' thresholds): the top only - it may be quoted below the
+            # charm; a bottom mass quoted at 1 GeV with alpha_s = 0.45 there runs to a fixed point below the charm mass
+            # and the library rightly refuses masses that are not ordered
+            if rng.random() < 0.4 and q == 3:
+                qm = max(1.05, m * math.exp(-rng.uniform(math.log(2.0), math.log(400.0))))
         else:
             qm = m * rng.uniform(1.1, 1.8)
             if rng.random() < 0.4:      # far above
